@@ -173,6 +173,19 @@ pub fn run(ctx: &Ctx) -> i32 {
     let cases = ctx.cases(300_000, 20_000_000);
     let r = run_recipes(ctx.seed, cases, ctx.threads, 3, |r, stats| {
         let fmt = if r.sel[7] & 1 == 0 { Fmt::F64 } else { Fmt::F32 };
+        // one f64 case in twelve: the float whose shortest rendering sits on the carry boundary of Eisel-Lemire's
+        // second multiplication (gen::lemire_carry_table, 15-17 digit significands)
+        if fmt == Fmt::F64 && r.sel[6] % 12 == 0 {
+            let t = gen::lemire_carry_table();
+            let e = t[gen::pick(r.sel[1], t.len())];
+            if e.digits <= 17 {
+                let x = oracle::expected_fast(fmt, e.w.to_string().as_bytes(), b"", e.q as i64);
+                if x < fmt.inf_bits() {
+                    stats.class("f64 shortest rendering on the Lemire carry boundary");
+                    return check_value(fmt, x, &all, true, stats, fmt as u64);
+                }
+            }
+        }
         let (x, cls) = float_of(fmt, r.sel[1], r.a, r.b);
         stats.class(&format!("{} {}", fmt.name(), cls));
         check_value(fmt, x, &all, true, stats, fmt as u64)
